@@ -320,6 +320,24 @@ def fn_key(fn):
     return parts[0] + '::' + '::'.join(parts[-2:])
 
 
+_direct = {}
+
+
+def direct_unsafe_callers(facts, U, ext_re):
+    key = id(facts)
+    if key not in _direct:
+        out = set()
+        for n, b in facts.bodies.items():
+            if not b.get('mir'):
+                continue
+            for blk in b['mir']['blocks']:
+                t = blk['term']
+                if t['k'] == 'call' and ((t.get('r') or t.get('f') or '') in U or ext_re.search(t.get('r') or t.get('f') or '')):
+                    out.add(n)
+        _direct[key] = out
+    return _direct[key]
+
+
 _callers = {}
 
 
@@ -417,8 +435,16 @@ def unsafe_ctor_callers(program, rep):
         root = fn.split('::{closure')[0]
         if root in U or (facts.bodies.get(root, {}).get('sig') or {}).get('unsafe'):
             continue
-        names = [(blk['term'].get('r') or blk['term'].get('f') or '') for blk in b['mir']['blocks'] if blk['term']['k'] == 'call']
-        if not any(x in U or ext_unchecked.search(x) for x in names):
+        # roots of the analysis: public functions, trait-impl methods, functions nobody in the repository calls, and functions with loops (never
+        # explored inline).  Private loop-free helpers and closures that wrap the unsafe call are explored inline from those roots, with the
+        # arguments their callers really pass.
+        direct = direct_unsafe_callers(facts, U, ext_unchecked)
+        if not (cg.reachable([fn]) & direct) and fn not in direct:
+            continue
+        if b['kind'] == 'Closure':
+            continue
+        is_root = bool(b.get('reach')) or bool(b.get('impl') and b['impl']['trait']) or program.has_loops(fn) or not callers_of(facts, fn)
+        if not is_root:
             continue
         e = pxm.PX(program, opaque=U)
         bad = []
